@@ -76,6 +76,8 @@ SEEDS = {
            "a change between two metres with the same quotient (3/4 to 6/8, 2/2 to 4/4) in the merged family: the second signature is dropped as a repetition"),
  "C19-b": ("C19", "get_info: the BAR branch advances the clock by `max(cur_bar_capacity_remaining, 0)`; detokenise still advances by the raw (possibly negative) remaining capacity",
            "a vocabulary-only stream whose rests overfill a bar before its BAR token: every later note is annotated later than detokenise places it"),
+ "C11-b": ("C11", "Bar.__init__: the pad length `int(n * PPQN / (d / 4))` rewritten as `n * PPQN // (d / 4)`; the divisor is a float, so floor division returns a float",
+           "a bar built from a sequence shorter than its capacity (last bar of a track, placeholder bars of a shorter track), then anything that concatenates after the padded bar"),
  "C17-a": ("C17", "equals: the tick comparison moved into the NOTE_ON branch; time and key signatures are compared by value only",
            "two sequences identical except for the tick of one signature, with no compared event of the channel between the old and the new tick"),
 }
